@@ -41,8 +41,10 @@ S  == 10                                   \* channel unit (1/10 channel)
 KL == 24                                   \* common multiple of the normalisation denominators, K <= 4
 
 PitMetrics == {"params", "params_no_bias", "ops", "ops_no_bias", "gap8_latency"}
-\* gap8_latency registers no Conv1d pattern: a 1-D network is outside what the metric supports
-Applicable(metric, a) == metric \in PitMetrics /\ (metric = "gap8_latency" => a.dim = 2)
+\* gap8_latency registers no Conv1d pattern (such layers cost 0 by the specification's default) but it does model
+\* Linear layers: on a 1-D network the metric is the latency of its Linear layers, which depends on the masks of
+\* the Conv1d layers that feed them
+Applicable(metric, a) == metric \in PitMetrics
 \* metrics that are polynomials with positive coefficients in the effective sizes (no rounding)
 Smooth(metric) == metric \in {"params", "params_no_bias", "ops", "ops_no_bias"}
 
@@ -124,13 +126,14 @@ Desc(a, A, n, disc) ==
      b    |-> IF Nd(a, n).bias THEN KU(a) ELSE 0,        \* one bias per output channel, in kernel units
      g    |-> IF IsDw(a, n) THEN 0 ELSE 1]
 
-LayerCost(metric, a, A, n, disc) == CF!CostInt(Fn(metric, a, n), Desc(a, A, n, disc), S)
+NoModel(metric, a, n) == metric = "gap8_latency" /\ Fn(metric, a, n).l = "conv1d"
+LayerCost(metric, a, A, n, disc) == IF NoModel(metric, a, n) THEN 0 ELSE CF!CostInt(Fn(metric, a, n), Desc(a, A, n, disc), S)
 \* CostSpec.shared: a layer object invoked at several call sites is charged once (size-like metrics) or per call
 SharedMetric(metric) == metric \in {"params", "params_no_bias", "gap8_latency"}
 CostSites(metric, a) == IF SharedMetric(metric) THEN {n \in SearchLayers(a) : Owner(a, n) = n} ELSE SearchLayers(a)
 Cost(metric, a, A, disc) ==
     MA!SumF([n \in CostSites(metric, a) |-> LayerCost(metric, a, A, n, disc)], CostSites(metric, a))
-Unit(metric, a) == CF!CostUnit(metric, S) * KU(a)
+Unit(metric, a) == IF metric = "gap8_latency" THEN S ELSE CF!CostUnit(metric, S) * KU(a)
 
 \* the same metric on the ORIGINAL network.  For the size / operation counts an independent
 \* transcription exists (FeatGraph!ParamsOf / OpsOf on the static shapes); gap8 is evaluated with the
@@ -147,7 +150,7 @@ OrigLayer(metric, a, n) ==
       [] metric = "params_no_bias" -> ParamsOf(a, n, cin, cout, k, FALSE)
       [] metric = "ops"            -> OpsOf(a, n, cin, cout, k, bias)
       [] metric = "ops_no_bias"    -> OpsOf(a, n, cin, cout, k, FALSE)
-      [] OTHER                     -> CF!CostInt(Fn(metric, a, n), StaticDesc(a, n), 1)
+      [] OTHER                     -> IF NoModel(metric, a, n) THEN 0 ELSE CF!CostInt(Fn(metric, a, n), StaticDesc(a, n), 1)
 OrigCost(metric, a) == MA!SumF([n \in CostSites(metric, a) |-> OrigLayer(metric, a, n)], CostSites(metric, a))
 
 (* ------------------------------ the mask lattice ------------------------ *)
@@ -252,6 +255,8 @@ PredDiscNonZero(ste, a, A, e) == Trainable(a, e) /\ SteGrad(ste, a, A, e) > 0
 (*   (across the threshold) changes MaskAlgebra!Kept;                      *)
 (*   a channel-mask element alpha_c is relevant iff it is not the          *)
 (*   keep-alive one (crossing always changes the alive set) and, for the   *)
+(*   (time-mask elements of a layer the metric has no model for - Conv1d   *)
+(*   under gap8_latency - are never relevant)                              *)
 (*   rounded metric gap8_latency, lifting it from 0 to 1 raises the model's*)
 (*   discrete Cost with every other free element at 0 or every one at 1.   *)
 (* CostDepsMC checks that the corner contexts are complete (a change of    *)
@@ -277,7 +282,100 @@ AlphaRaisesModel(metric, a, sh, e) ==
 DiscRelevant(metric, a, sh, e) ==
     /\ Trainable(a, e)
     /\ IF e[1] = "a" THEN ~KeepAlive(a, e) /\ (Smooth(metric) \/ AlphaRaisesModel(metric, a, sh, e))
-                      ELSE TimeRelevant(KOf(a, e[2]), e[1], e[3])
+                      \* a layer the metric has no model for (gap8_latency / Conv1d) never charges its kernel size
+                      ELSE ~NoModel(metric, a, e[2]) /\ TimeRelevant(KOf(a, e[2]), e[1], e[3])
+
+(***************************************************************************)
+(* DEPENDENCY MATRIX.  Dep(metric, a, e): does the reference formula of    *)
+(* the metric (CostFormulas, through Cost) change when the alive count     *)
+(* governed by channel-mask element e changes - with every other free      *)
+(* element at 0 or every one at 1?  Evaluated on two-layer "producer ->    *)
+(* consumer" architectures it is the matrix  metric x producer type x      *)
+(* consumer type; a TRUE entry obliges the real model to back-propagate a  *)
+(* non-zero gradient to that element (continuous and discrete cost), also  *)
+(* when the only path runs through the CONSUMER's number of input features *)
+(* (e.g. gap8_latency: Conv1d has no model of its own, the Linear layer it *)
+(* feeds has).                                                             *)
+(***************************************************************************)
+Dep(metric, a, sh, e) == Trainable(a, e) /\ e[1] = "a" /\ ~KeepAlive(a, e) /\ AlphaRaisesModel(metric, a, sh, e)
+
+(***************************************************************************)
+(* HISTORY.  What may the cost depend on, and what not.                    *)
+(*   PIT      cost = F(parameter VALUES, discrete_cost).  Nothing else:    *)
+(*            not requires_grad (train_net_only / train_nas_only /         *)
+(*            train_net_and_nas / train_features / train_rf /              *)
+(*            train_dilation), not train()/eval(), not forward / export /  *)
+(*            summary calls.                                               *)
+(*   MPS, SuperNet  the cost is read from the coefficients theta sampled   *)
+(*            by the LAST FORWARD pass (documented protocol: forward, then *)
+(*            cost): cost = G(theta of the last forward).  MPS samples     *)
+(*            soft in training and one-hot in eval mode, SuperNet (default *)
+(*            sampler) soft in both.  Everything else is an OBSERVER:      *)
+(*            export(), summary(), the requires_grad switches and          *)
+(*            train()/eval() by themselves must leave the cost where it    *)
+(*            was; changing a parameter without a forward pass gives no    *)
+(*            obligation (the key below changes with the version).         *)
+(* Reference: r = [ver, mode, fw]  (version of the parameter values, mode, *)
+(* <<version, kind>> of the last forward).  RefKey is what the cost may    *)
+(* depend on; two reads with the same RefKey must return the same cost.    *)
+(* Implementation model: the coefficient tensors are CELLS, the attribute  *)
+(* theta_alpha points to one of them (cur); a forward pass re-binds the    *)
+(* attribute to a fresh cell; export() keeps a REFERENCE to the current    *)
+(* cell, runs an eval-mode forward and re-binds the attribute to the kept  *)
+(* reference.  impl variants:                                              *)
+(*   "asis"        as described                                            *)
+(*   "inplace"     the eval-mode sample is written INTO the current cell   *)
+(*                 (the reference kept by export() then holds the one-hot  *)
+(*                 sample: the restore is a no-op)                         *)
+(*   "dropsfrozen" PIT: the continuous kernel size ignores the dilation    *)
+(*                 mask while train_dilation is off                        *)
+(***************************************************************************)
+SampleKind(method, mode) == IF method = "mps" /\ mode = "eval" THEN "hard" ELSE "soft"
+AllOn   == [features |-> TRUE, rf |-> TRUE, dilation |-> TRUE, net |-> TRUE]
+NetOnly == [features |-> FALSE, rf |-> FALSE, dilation |-> FALSE, net |-> TRUE]
+NasOnly == [features |-> TRUE, rf |-> TRUE, dilation |-> TRUE, net |-> FALSE]
+OnOff(b) == IF b THEN "on" ELSE "off"
+Other(m) == IF m = "train" THEN "eval" ELSE "train"
+
+RefInit(method) == [ver |-> 0, mode |-> "train", fw |-> <<0, SampleKind(method, "train")>>]
+RefStep(method, r, act) ==
+    CASE act[1] = "set"  -> [r EXCEPT !.ver = @ + 1]
+      [] act[1] = "mode" -> [r EXCEPT !.mode = act[2]]
+      [] act[1] = "fwd"  -> [r EXCEPT !.fw = <<r.ver, SampleKind(method, r.mode)>>]
+      [] OTHER           -> r
+RefKey(method, r, disc) == IF method = "pit" THEN <<r.ver, disc>> ELSE <<r.ver, r.fw>>
+
+ImplInit(method) == [ver |-> 0, mode |-> "train", rg |-> AllOn, cells |-> <<<<0, SampleKind(method, "train")>>>>, cur |-> 1]
+ImplSample(impl, method, h, mode) ==
+    LET c == <<h.ver, SampleKind(method, mode)>> IN
+    IF impl = "inplace" /\ method = "mps" /\ mode = "eval"
+    THEN [h EXCEPT !.cells[h.cur] = c]
+    ELSE [h EXCEPT !.cells = Append(@, c), !.cur = Len(h.cells) + 1]
+ImplStep(impl, method, h, act) ==
+    CASE act[1] = "set"         -> [h EXCEPT !.ver = @ + 1]
+      [] act[1] = "mode"        -> [h EXCEPT !.mode = act[2]]
+      [] act[1] = "fwd"         -> IF method = "pit" THEN h ELSE ImplSample(impl, method, h, h.mode)
+      [] act[1] = "export"      -> IF method = "pit" THEN h
+                                   ELSE LET kept == h.cur IN [ImplSample(impl, method, h, "eval") EXCEPT !.cur = kept]
+      [] act[1] = "net_only"    -> [h EXCEPT !.rg = NetOnly]
+      [] act[1] = "nas_only"    -> [h EXCEPT !.rg = NasOnly]
+      [] act[1] = "net_and_nas" -> [h EXCEPT !.rg = AllOn]
+      [] act[1] = "feat"        -> [h EXCEPT !.rg.features = (act[2] = "on")]
+      [] act[1] = "rf"          -> [h EXCEPT !.rg.rf = (act[2] = "on")]
+      [] act[1] = "dil"         -> [h EXCEPT !.rg.dilation = (act[2] = "on")]
+      [] OTHER                  -> h                                   \* summary
+ImplKey(impl, method, h, disc) ==
+    IF method = "pit"
+    THEN IF impl = "dropsfrozen" /\ ~disc /\ ~h.rg.dilation THEN <<h.ver, disc, "no dilation mask">> ELSE <<h.ver, disc>>
+    ELSE <<h.ver, h.cells[h.cur]>>
+\* the calls a history is made of (calls that change nothing the model tracks, e.g. train() in training mode, are left out)
+HistActs(method, h) ==
+    {<<"set", "">>, <<"fwd", "">>, <<"export", "">>, <<"summary", "">>, <<"mode", Other(h.mode)>>}
+    \cup (IF h.rg # NetOnly THEN {<<"net_only", "">>} ELSE {})
+    \cup (IF h.rg # NasOnly THEN {<<"nas_only", "">>} ELSE {})
+    \cup (IF h.rg # AllOn THEN {<<"net_and_nas", "">>} ELSE {})
+    \cup (IF method = "pit" THEN {<<"feat", OnOff(~h.rg.features)>>, <<"rf", OnOff(~h.rg.rf)>>, <<"dil", OnOff(~h.rg.dilation)>>}
+          ELSE IF method = "sn" THEN {<<"feat", OnOff(~h.rg.features)>>} ELSE {})
 
 (* ------------------------------ mixing (MPS / SuperNet) ----------------- *)
 RECURSIVE SeqSum(_, _)
